@@ -108,6 +108,8 @@ def run_generic(tier, out, spin, design_cfgs, tag, replay=None):
                 out.set("spec_design_" + cfgname[:-4], {"distinct": r.distinct})
                 if not r.ok:
                     out.violation("spec:" + ",".join(r.violated), "spec-level %s %s" % (cfgname, ",".join(r.violated)), r.stdout[-2500:])
+        if not replay:
+            check_slack(out, wd)
         from . import pure
         polys, udesc = pure.universe("2f" if thorough else "2s", wd)
         polys3, udesc3 = pure.universe("3" if thorough else "3q", wd)      # three labels: product terms sharing a variable
@@ -132,6 +134,35 @@ def run_generic(tier, out, spin, design_cfgs, tag, replay=None):
                             "ancilla labels are recognised by their name prefix '__a' (harness), everything else is judged by TLC"]
     finally:
         common.cleanup(wd)
+
+
+def slack_register_records():
+    """num_bits on values far beyond the truth-table range, as (k, d, minus): v = 2^k + d or 2^k - d"""
+    from qubovert.utils import num_bits
+    recs = []
+    for k in list(range(1, 40, 3)) + list(range(40, 64)):
+        for d, minus in ((0, False), (1, False), (3, False), (2 ** k - 1, False), (1, True), (2, True)):
+            if (minus and d > 2 ** (k - 1)) or (not minus and d >= 2 ** k):
+                continue
+            v = 2 ** k - d if minus else 2 ** k + d
+            rec = {"k": k, "minus": minus, "out": -1, "raised": ""}
+            try:
+                rec["out"] = int(num_bits(v, True))
+            except Exception as e:      # noqa
+                rec["raised"] = type(e).__name__
+            recs.append(rec)
+    return recs
+
+
+def check_slack(out, wd):
+    recs = slack_register_records()
+    rf = os.path.join(wd, "slack.ndjson")
+    common.write_ndjson(rf, recs)
+    r = run_tlc("CheckSlack", "CheckSlack.cfg", env={"QV_RECS": rf}, cont=True, timeout=300, workers=2, name="checkslack")
+    out.add("slack_register_sizes_checked", len(recs))
+    for v in r.viol_lines[:3]:
+        rec = recs[int(v[2]) - 1]
+        out.violation("SlackBits", "SlackBits num_bits", rec, None)
 
 
 def run(tier, out, replay=None):
